@@ -293,11 +293,6 @@ def judge_build_failure(failure, bodies, table, what):
             f'{what}: registering {bodies[i]} raised {err}; set being registered={list(table.values())}', False)
 
 
-def new_context(bodies):
-    """Dependency-first registration of a whole set (used by replay / observe): -> (ctx | None, failure | None)."""
-    return build_world(bodies, [ref.expr_hash(b) for b in bodies])
-
-
 def classify(script, table, hashes):
     """-> (outcome class, expected expansion or None when it must raise)."""
     names = list(ref.references(script))
@@ -441,6 +436,98 @@ def run_case(case, ctx=None):
     return out
 
 
+def run_world(case, bodies, hashes, kinds, table):
+    """The same set of expressions put into a context in every way and order: by `register_global_constant` in the order
+    `perm` (every root reference judged after EVERY registration against the table registered so far: what is still unknown
+    must raise, what is complete must expand), or as a ready-made mapping hash -> expression handed to the constructor with
+    its items in the order `perm` (the way ContractInterface.from_micheline hands the registry on).  In the finished world:
+    registered keys, every constant at the root and in its first fitting slot of the skeleton, and (case['iface']) the
+    ContractInterface leg for the script naming the last constant."""
+    from pytezos.context.impl import ExecutionContext
+    perm, mode = case['perm'], case['mode']
+    what = 'world by registration' if mode == 'register' else 'world from a mapping'
+    out = []
+
+    def judge(ctx, node, tbl, when, where):
+        try:
+            want = ref.expand(node, tbl)
+        except ref.UnknownConstant:
+            want = None
+        pristine = copy.deepcopy(node)
+        try:
+            got = ('ok', ctx.resolve_global_constants(node))
+        except Exception as e:  # noqa
+            got = ('raise', f'{type(e).__name__}: {e}')
+        detail = f'{what} order={perm} {when}: {where} set={bodies} got={got} expected={want if want is not None else "an error"}'
+        if want is None:
+            ok = got[0] == 'raise'
+            out.append((f'{what}: {when}: constant not (completely) registered yet: ' + ('raises' if ok else 'EXPANDED'),
+                        None if ok else 'unknown hash expanded without error', detail, False))
+        else:
+            ok = got == ('ok', want)
+            out.append((f'{what}: {when}: registered constant: ' + ('expanded' if ok else 'WRONG'), None if ok else D_WORLD,
+                        detail, False))
+        if node != pristine:
+            out.append(('input modified', 'expansion modifies the script it is given', detail, False))
+
+    if mode == 'register':
+        try:
+            ctx = ExecutionContext()
+        except Exception as e:  # noqa
+            return [judge_build_failure((None, f'{type(e).__name__}: {e}'), bodies, table, what)]
+        tbl = {}
+        for k, i in enumerate(perm):
+            err = register(ctx, bodies[i])
+            if err:
+                out.append(judge_build_failure((i, err), bodies, table, what))
+                return out
+            tbl[hashes[i]] = bodies[i]
+            if k + 1 < len(perm):
+                for j in range(len(bodies)):
+                    judge(ctx, cref(hashes[j]), tbl, 'partial registry', f'root reference to constant {j} after {k + 1} registrations')
+    else:
+        ctx, failure = build_world(bodies, hashes, 'dict', perm)
+        if failure:
+            return [judge_build_failure(failure, bodies, table, what)]
+    try:
+        keys = sorted(ctx.global_constants)
+    except Exception as e:  # noqa
+        keys = f'{type(e).__name__}: {e}'
+    if keys != sorted(set(hashes)):
+        out.append((f'{what}: registered keys differ', 'constant registered under a hash that is not its Tezos expression hash',
+                    f'{what} order={perm} bodies={bodies} keys={keys} expected={sorted(set(hashes))}', False))
+    for j in range(len(bodies)):
+        judge(ctx, cref(hashes[j]), table, 'complete registry', f'root reference to constant {j}')
+        slot = SLOT_KIND.index(kinds[j])
+        judge(ctx, make_script([[slot, j]], hashes, kinds), table, 'complete registry', f'constant {j} in slot {slot}')
+    if case.get('iface') and bodies:
+        from pytezos.contract.interface import ContractInterface
+        j = len(bodies) - 1
+        script = make_script([[SLOT_KIND.index(kinds[j]), j]], hashes, kinds)
+        try:
+            want = ref.expand(script, table)
+        except ref.UnknownConstant:
+            want = None
+        try:
+            ci = ContractInterface.from_micheline(script, ctx)
+            got = ('ok', ci.context.script['code'], ci.context.get_code_expr(), ci.context.get_views_expr())
+        except Exception as e:  # noqa
+            got = ('raise', f'{type(e).__name__}: {e.args[-1] if e.args else ""}')
+        detail = f'{what} order={perm} set={bodies} script names constant {j} got={got}'
+        if want is None:
+            ok = got[0] == 'raise'
+            out.append((f'{what}: interface: unknown hash inside a referenced constant: ' + ('raises' if ok else 'ACCEPTED'),
+                        None if ok else 'ContractInterface.from_micheline accepts a script naming an unknown hash', detail, False))
+        else:
+            ok = got == ('ok', want, want[2], [want[3]])
+            d = None
+            if not ok:
+                d = ('ContractInterface.from_micheline rejects a script whose constants are all registered'
+                     if got[0] == 'raise' else 'ContractInterface.from_micheline: script sections differ from the expansion')
+            out.append((f'{what}: interface: ' + ('expanded' if ok else 'WRONG'), d, detail + f' expected={want}', False))
+    return out
+
+
 def run_history(case, bodies, hashes, kinds, table):
     """Several calls on two contexts (A: whole set, B: the set without constant j) or on A around reset(); every call is
     judged against the reference with the table of the context it is made on."""
@@ -448,20 +535,31 @@ def run_history(case, bodies, hashes, kinds, table):
     node = cref(hashes[j]) if slot == 'root' else make_script([[slot, j]], hashes, kinds)
     bodies_b = [b for b, h in zip(bodies, hashes) if h != hashes[j]]
     table_b = {h: b for h, b in table.items() if h != hashes[j]}
-    a = new_context(bodies)
+    a, failure = build_world(bodies, hashes)
+    if failure:
+        return [judge_build_failure(failure, bodies, table, 'history: context A')]
     if order == 'reset':
         steps = [('A', a, table, None), ('A after reset()', a, {}, 'reset'), ('A after registering again', a, table, 'register')]
     else:
-        b = new_context(bodies_b)
+        b, failure = build_world(bodies_b, [ref.expr_hash(x) for x in bodies_b])
+        if failure:     # B lacks constant j: a constant naming j dangles there and may be refused
+            return [judge_build_failure(failure, bodies_b, table_b, 'history: context B (the set without one constant)')]
         ctxs = {'A': ('A (knows the constant)', a, table), 'B': ('B (does not know it)', b, table_b)}
         steps = [ctxs[c] + (None,) for c in order]
     out = []
     for i, (who, ctx, tbl, before) in enumerate(steps):
         if before == 'reset':
-            ctx.reset()
+            try:
+                ctx.reset()
+            except Exception as e:  # noqa
+                out.append((f'history: reset() raises {type(e).__name__} (not judged)', None, '', True))
+                return out
         elif before == 'register':
-            for body in bodies:
-                ctx.register_global_constant(copy.deepcopy(body))
+            for bi, body in enumerate(bodies):
+                err = register(ctx, body)
+                if err:
+                    out.append(judge_build_failure((bi, err), bodies, table, 'history: registering again after reset()'))
+                    return out
         try:
             want = ref.expand(node, tbl)
         except ref.UnknownConstant:
@@ -519,6 +617,11 @@ def cases_of(spec, tier):
     for s in sets:
         kinds = [c[0] for c in s]
         base = {'alpha': alpha, 'set': s}
+        yield dict(base, entry='build')
+        nested = any(isinstance(f, int) for c in s for f in c[2])
+        for perm in itertools.permutations(range(len(s))):
+            for mode in ('register', 'dict'):
+                yield dict(base, entry='world', mode=mode, perm=list(perm), iface=(len(s) <= 2 or nested))
         yield dict(base, entry='keys')
         for j, c in enumerate(s):
             yield dict(base, entry='root', const=j)
@@ -551,11 +654,16 @@ def run_shard(spec, tier):
     for case in cases_of(spec, tier):
         if case['set'] is not cur_set:
             cur_set = case['set']
-            ctx = new_context(build_set(cur_set, case['alpha'])[0])
+            bodies, hashes = build_set(cur_set, case['alpha'])
+            ctx, _ = build_world(bodies, hashes)        # a failure is judged by the set's 'build' case
         r.ev()
-        if case.get('script') or case.get('entry') in ('root', 'tezos-hash', 'history'):
+        if case.get('script') or case.get('entry') in ('root', 'tezos-hash', 'history') or (case.get('entry') == 'world' and cur_set):
             r.nt((case['alpha'], case['set'], case.get('script'), case.get('entry'), case.get('const'), case.get('slot'),
-                  case.get('order')))
+                  case.get('order'), case.get('mode'), case.get('perm')))
+        if ctx is None and case.get('entry') not in ('build', 'world', 'history'):
+            r.out('not run: the set could not be registered dependency first (judged by its build case)')
+            r.no_verdict += 1
+            continue
         for label, desc, detail, nov in run_case(case, ctx):
             r.out(label)
             if nov:
